@@ -404,12 +404,16 @@ func (s *sut) apply(ev map[string]any) (map[string]any, error) {
 			return nil, fmt.Errorf("CloseLease(%s) without a lease", c)
 		}
 		return errRes(s.closeLease(c)), nil
+	case "ExBatch": // one StoreAppendBatch call with several items (multibatch_test.go)
+		return s.exBatch(ev)
 	}
 	if len(s.leases[c]) == 0 {
 		return nil, fmt.Errorf("%s(%s) without a lease", a, c)
 	}
 	l := s.w(c)
 	switch a {
+	case "CancelAppend": // an append cancelled at every point of its validation (cancel_test.go)
+		return s.cancelAppend(ev)
 	case "Append":
 		rs := recsOf(ev)
 		mode, base := kit.Str(ev, "mode"), kit.Int(ev, "base")
@@ -1003,6 +1007,9 @@ func (r *runner) tmp() string {
 // class of a divergence: C08 when the store admitted an append the specification rejects.
 func divergenceClass(ev map[string]any, want, got any) string {
 	a := kit.Str(ev, "a")
+	if a == "ExBatch" {
+		return batchDivergenceClass(want, got)
+	}
 	if a == "Append" || a == "Apply" || a == "ExAppend" {
 		w, _ := kit.Canon(want).(map[string]any)
 		g, _ := kit.Canon(got).(map[string]any)
